@@ -233,7 +233,9 @@ jobs:
     secrets:
       s: t
   j3:
-    runs-on: ubuntu-latest
+    runs-on:
+      group: g3
+      labels: ${{ github.ref_name }}
     container: img
     environment: e
     concurrency: g
@@ -564,7 +566,30 @@ func (s *verifSites) walkP(n *yaml.Node, c verifCtx, key string, owner verifCtx,
 // verifSkeletonSites parses the skeleton and lists its mapping and scalar sites.
 func verifSkeletonSites() (*yaml.Node, *verifSites) { return verifSkeletonSitesOf(verifSkeleton) }
 
-func verifFullSkeletonSites() (*yaml.Node, *verifSites) { return verifSkeletonSitesOf(verifSkeletonFull) }
+// verifFullSkeletonSites: the full skeleton as written, or (free choice "mirror") with the
+// entries of every mapping in reverse order — `with` before `uses`, `shell` before `run`,
+// `labels` before `group`, `exclude` before the rows …: the order of keys in a mapping has no
+// meaning in the workflow syntax.
+func verifFullSkeletonSites() (*yaml.Node, *verifSites) {
+	doc, sites := verifSkeletonSitesOf(verifSkeletonFull)
+	if verifChoose("mirror", 2) == 1 {
+		verifMirror(doc)
+	}
+	return doc, sites
+}
+
+func verifMirror(n *yaml.Node) {
+	if n.Kind == yaml.MappingNode {
+		c := n.Content
+		for i, j := 0, len(c)-2; i < j; i, j = i+2, j-2 {
+			c[i], c[j] = c[j], c[i]
+			c[i+1], c[j+1] = c[j+1], c[i+1]
+		}
+	}
+	for _, ch := range n.Content {
+		verifMirror(ch)
+	}
+}
 
 func verifSkeletonSitesOf(src string) (*yaml.Node, *verifSites) {
 	doc := verifParseYAML(src)
